@@ -155,6 +155,10 @@ def run(chk):
             t.a(R)[0] in ("const", "zero")
         chk.ob("R-TIME", "%s:%s.time" % (ci.module.relpath, ci.name), "len npts, deg(dt)=1, starts at 0, ascending, independent of the values",
                ok, derived=repr(t.describe({R, DT})), loc=tprop.loc())
+        held = sorted(a for a, av in st.heap[oav.obj].attrs.items() if av.kind == K_ARRAY and (av.origin & t.origin))
+        chk.ob("R-TIME", "%s:%s.time[fresh]" % (ci.module.relpath, ci.name), "each read of time returns a fresh array that the object does not keep",
+               is_fresh_origin(t.origin) and not held, derived="origin %s; kept in attribute(s) %s" % (sorted(t.origin), held), loc=tprop.loc(),
+               detail="a later in-place edit of a slice of .time changes what .time reports" if held else None)
         v = oo.attrs.get("_values")
         chk.ob("R-KIND", construct, "values are an ndarray of length npts after construction",
                v is not None and v.kind == K_ARRAY and v.length() == oo.attrs["_npts"].sym,
@@ -229,7 +233,7 @@ def run(chk):
     chk.floor("R-NOMUT", 190)
     chk.floor("R-OWN", 20)
     chk.floor("R-KIND", 20)
-    chk.floor("R-TIME", 2)
+    chk.floor("R-TIME", 4)
 
 
 def _is_local(fi, name):
